@@ -187,23 +187,15 @@ def read_records(path):
         return [json.loads(l) for l in f if l.strip()]
 
 
-def run_vh(mode, infile, budget_ms=5000, extra=None, timeout=3600, env_extra=None):
-    """Runs the harness over every record of `infile`.  Attributes aborts and
-    hangs to the record being processed and continues after it.
-    Returns a list of result dicts indexed like the records."""
-    total = sum(1 for l in open(infile) if l.strip())
-    results = {}
-    start = 0
-    t0 = time.time()
-    env = dict(os.environ, VH_WORK=WORK)
-    if env_extra:
-        env.update(env_extra)
+def _run_vh_range(mode, infile, lo, hi, budget_ms, extra, deadline, env, results):
+    """Runs records lo..hi-1; attributes aborts and hangs to the record being processed and continues after it."""
+    start = lo
     restarts = 0
-    while start < total:
-        cmd = [VH, mode, "--in", infile, "--start", str(start), "--budget-ms", str(budget_ms)] + (extra or [])
+    while start < hi:
+        cmd = [VH, mode, "--in", infile, "--start", str(start), "--limit", str(hi - start), "--budget-ms", str(budget_ms)] + (extra or [])
         p = subprocess.Popen(cmd, stdout=subprocess.PIPE, stderr=subprocess.PIPE, text=True, env=env, cwd=ROOT)
         try:
-            out, err = p.communicate(timeout=max(10, timeout - (time.time() - t0)))
+            out, err = p.communicate(timeout=max(10, deadline - time.time()))
         except subprocess.TimeoutExpired:
             p.kill()
             raise ToolError("harness batch timeout in mode %s" % mode)
@@ -240,6 +232,36 @@ def run_vh(mode, infile, budget_ms=5000, extra=None, timeout=3600, env_extra=Non
         restarts += 1
         if restarts > 2000:
             raise ToolError("too many harness restarts")
+
+
+def run_vh(mode, infile, budget_ms=5000, extra=None, timeout=3600, env_extra=None, jobs=None):
+    """Runs the harness over every record of `infile` (in `jobs` parallel processes over
+    contiguous ranges).  Returns a list of result dicts indexed like the records."""
+    import threading
+    total = sum(1 for l in open(infile) if l.strip())
+    results = {}
+    env = dict(os.environ, VH_WORK=WORK)
+    if env_extra:
+        env.update(env_extra)
+    jobs = jobs or int(os.environ.get("VERIF_JOBS", "6"))
+    jobs = max(1, min(jobs, (total + 199) // 200))
+    deadline = time.time() + timeout
+    bounds = [(total * k // jobs, total * (k + 1) // jobs) for k in range(jobs)]
+    errors = []
+
+    def work(lo, hi):
+        try:
+            _run_vh_range(mode, infile, lo, hi, budget_ms, extra, deadline, env, results)
+        except ToolError as e:
+            errors.append(e)
+
+    ths = [threading.Thread(target=work, args=b) for b in bounds if b[0] < b[1]]
+    for t in ths:
+        t.start()
+    for t in ths:
+        t.join()
+    if errors:
+        raise errors[0]
     res = [results.get(i) for i in range(total)]
     missing = [i for i, r in enumerate(res) if r is None]
     if missing:
